@@ -445,6 +445,46 @@ Theorem C13_options_same_written_dedup_linked :
 Proof. exact options_same_written_dedup_linked. Qed.
 Print Assumptions C13_options_same_written_dedup_linked.
 
+(* ... and about the WRITTEN volumes themselves, as the property text says
+   ("a volume with the same provenance and the same composition"): for the owner
+   cell c (listed; its geometry an operator node in both tables, as pot_fill builds
+   them) both written tables contain the non-FICTIVE volume numbered c, sigma lies
+   in it, its v_orig (the comment after ENDV) is the provenance of cell c in both,
+   and the material GEOMCOMP attaches to volume c is the same.  Proved over C01's
+   definitions in coq/C13/LinkC01Orig.v (root volume of pot_to_t4_cell carries
+   idorigin; convert_cells copies it; renumber / remove_empty / remove_unused /
+   written keep v_orig). *)
+From T4V Require C01.Model.
+Theorem C13_options_same_written_provenance_linked :
+  forall fuel (o1 o2 : options) dic counter d1 c1 d2 c2
+         sigma matching u0 u1 cfuel todo cnt0 s1 s2 rn1 rn2 skipped w1 w2 c a b,
+  (forall k, lookup k dic <> None -> k <= counter) -> (exists rank, acyclic rank dic) ->
+  good_cells matching dic ->
+  cell_stage fuel o1 dic counter = Ok (d1, c1) -> cell_stage fuel o2 dic counter = Ok (d2, c2) ->
+  0 < u0 -> 0 < u1 -> C01.Spec.consistent sigma u0 u1 ->
+  NoDup todo -> (forall k, In k todo -> k <= cnt0) -> (forall k, In k todo -> lookup k d1 <> None) ->
+  C01.Model.convert_cells cfuel (embed_cells d1) matching u0 u1 todo (C01.Model.mkSt cnt0 [] [] []) = C01.Model.Ok s1 ->
+  C01.Model.convert_cells cfuel (embed_cells d2) matching u0 u1 todo (C01.Model.mkSt cnt0 [] [] []) = C01.Model.Ok s2 ->
+  C01.Model.prune u0 u1 rn1 (C01.Model.vols s1) = C01.Model.Ok w1 ->
+  C01.Model.prune u0 u1 rn2 (C01.Model.vols s2) = C01.Model.Ok w2 ->
+  (forall r, rn1 = Some r -> C01.ProofsPrune.respects sigma r) ->
+  (forall r, rn2 = Some r -> C01.ProofsPrune.respects sigma r) ->
+  (forall k, In k skipped -> k <= cnt0 /\ ~ In k todo) ->
+  In c todo -> lookup c d1 = Some a -> lookup c d2 = Some b ->
+  is_gnode (cgeom a) -> is_gnode (cgeom b) ->
+  exists r1, acyclic r1 d1 /\
+  (cden r1 (sigmaM sigma matching) d1 c = true ->
+   (forall c', In c' todo -> cden r1 (sigmaM sigma matching) d1 c' = true -> c' = c) ->
+   exists v1 v2,
+     C01.Model.lookup c (C01.Model.written skipped w1) = Some v1 /\
+     C01.Model.lookup c (C01.Model.written skipped w2) = Some v2 /\
+     C01.Model.v_fict v1 = false /\ C01.Model.v_fict v2 = false /\
+     C01.ProofsCells.in_volume sigma (C01.Model.written skipped w1) c /\
+     C01.ProofsCells.in_volume sigma (C01.Model.written skipped w2) c /\
+     C01.Model.v_orig v1 = corigin a /\ C01.Model.v_orig v2 = corigin a /\ cmat a = cmat b).
+Proof. exact options_same_written_provenance. Qed.
+Print Assumptions C13_options_same_written_provenance_linked.
+
 (* non-vacuity of the link: both stage-1 tables of C13_example_options run through
    C01's loop and prune (with and without a renumbering) and leave the same
    non-FICTIVE volumes 2, 12, 13 *)
